@@ -312,9 +312,31 @@ def extract_func(src, name):
     if not m:
         return None
     end = src.find("\n}\n", m.start())
-    if end < 0:
-        return None
-    return src[m.start():end + 3]
+    return None if end < 0 else src[m.start():end + 3]
+
+
+def extract_closure(src, roots, skip=()):
+    """roots plus every top-level function of the same file they (transitively) call: a refactoring that moves part of a
+    copied function into a helper next to it keeps the copy complete. Returns (ordered names, {name: text}, missing roots)."""
+    tops = re.findall(r"^func (\w+)\(", src, re.M)
+    texts, order, missing = {}, [], []
+    todo = list(roots)
+    while todo:
+        n = todo.pop(0)
+        if n in texts or n in skip:
+            continue
+        t = extract_func(src, n)
+        if t is None:
+            if n in roots:
+                missing.append(n)
+            continue
+        texts[n] = t
+        order.append(n)
+        body = re.sub(r"//[^\n]*", "", re.sub(r"/\*.*?\*/", "", t[t.index("{"):], flags=re.S))   # calls in comments do not count
+        for h in tops:
+            if h not in texts and h not in todo and h not in skip and re.search(r"\b%s\(" % re.escape(h), body):
+                todo.append(h)
+    return order, texts, missing
 
 
 def build_rotate(ck):
@@ -323,12 +345,9 @@ def build_rotate(ck):
     parts, missing = [], []
     for rel, names in (("ctrl/qryn/maintenance/maintain.go", ["rotateDB", "RotateAll"]), ("main.go", ["boolEnv", "portCHEnv"])):
         src = open(os.path.join(vcheck.REPO, rel)).read()
-        for n in names:
-            t = extract_func(src, n)
-            if t is None:
-                missing.append("%s: func %s" % (rel, n))
-            else:
-                parts.append("// ---- %s: func %s\n%s" % (rel, n, t))
+        order, texts, miss = extract_closure(src, names, skip=("main", "init", "initFlags", "initDB", "initPyro", "httpStart"))
+        missing += ["%s: func %s" % (rel, n) for n in miss]
+        parts += ["// ---- %s: func %s\n%s" % (rel, n, texts[n]) for n in order]
     if missing:
         ck.obligation("glue functions found in the repository (rotateDB, RotateAll, boolEnv, portCHEnv)", False, "; ".join(missing))
         return False
